@@ -185,9 +185,6 @@ def monTick (m : MSt) (w : Nat) (obs : String) : MSt × List Fail :=
     | some t =>
       let want := documentedReason m.cfg t.arr
       if r == want.name then none
-      else if want == Reason.expired ∧ r == Reason.spanLimit.name ∧ countModulus ≤ m.cfg.spanLimit then
-        some (mfail "C03" "C03:reason-span-limit-not-exceeded:SpanLimit>=2^32"
-          s!"trace {id} has {t.arr.count} spans, SpanLimit {m.cfg.spanLimit}, reported {r}")
       else some (mfail "C03" s!"C03:wrong-send-reason:want={want.name}:got={r}"
           s!"trace {id}: root={t.arr.rootAt.isSome} spans={t.arr.count} SpanLimit={m.cfg.spanLimit}")
     | none => none
